@@ -176,6 +176,18 @@ def run(tier):
             perms = list(itertools.permutations(range(n)))
             for k in range(0, len(perms), 24):
                 tasks.append((d, label, rows, perms[k : k + 24], "all permutations"))
+    # the same populations relabelled to the dense ids 0..n-1 (ids that coincide with row positions in the identity order)
+    from mc.checks.c02 import relabel
+
+    for d in (dates if thorough else dates[:1]):
+        year = int(d[:4])
+        for label, rows in base_sets(year):
+            n = len(rows)
+            if n < 3 or n > 5:
+                continue
+            perms = list(itertools.permutations(range(n)))
+            for k in range(0, len(perms), 24):
+                tasks.append((d, label + "/zero-based-ids", relabel(rows, "zero-based"), perms[k : k + 24], "dense ids x all permutations"))
     # single-attribute deviations x rotations (every row comes first once)
     dev_dates = dates[2::6] if thorough else dates[1:2]
     allperm_dates = set(dev_dates[:2])
